@@ -217,6 +217,18 @@ define_payload!(P1000A16D, 1000, 16, true);
 define_payload!(P2000A8D, 2000, 8, true);
 define_payload!(P40A32D, 40, 32, true);
 define_payload!(P64A64D, 64, 64, true);
+// node sizes at the edge of a page: 248 bytes (8 short of a 256 byte page), 256 bytes (exactly a 256 byte page) and
+// 4088 bytes (8 short of a 4 KiB page)
+define_payload!(P200A1D, 200, 1, true);
+define_payload!(P208A8D, 208, 8, true);
+define_payload!(P4047A1D, 4047, 1, true);
+
+/// Size of a list node holding an `E` (payload as `Option<E>`, 16 bytes time, 8 bytes id, two links), as the
+/// allocator rounds it; only used to decide which page sizes a payload type fits.
+pub fn node_size<E>() -> usize {
+    let a = std::mem::align_of::<E>().max(8);
+    (std::mem::size_of::<Option<E>>() + 40).div_ceil(a) * a
+}
 
 /// A payload whose destructor panics on demand (after counting the drop).
 pub struct FaultyDrop {
